@@ -8,6 +8,9 @@ package xmpp
 // the individual conn.Write calls made by Ping and script their results.
 
 import (
+	"bufio"
+	"encoding/xml"
+	"io"
 	"net"
 
 	"gosrc.io/xmpp/stanza"
@@ -21,4 +24,14 @@ func VerifXMPPTransportOnConn(conn net.Conn, connectTimeout int) *XMPPTransport 
 		readWriter:    conn,
 		closeChan:     make(chan stanza.StreamClosePacket),
 	}
+}
+
+// VerifXMPPTransportLoggedOnConn: like VerifXMPPTransportOnConn, with the read/write
+// path wired as XMPPTransport.Connect wires it (traffic logger, buffered decoder).
+func VerifXMPPTransportLoggedOnConn(conn net.Conn, logFile io.Writer, connectTimeout int) *XMPPTransport {
+	t := VerifXMPPTransportOnConn(conn, connectTimeout)
+	t.logFile = logFile
+	t.readWriter = newStreamLogger(conn, logFile)
+	t.decoder = xml.NewDecoder(bufio.NewReaderSize(t.readWriter, maxPacketSize))
+	return t
 }
